@@ -211,3 +211,32 @@ func zzC14aGuard() {
 	vf.Assert("nothing-sent", snd.sent == 0)
 	vf.Reach("end")
 }
+
+// C14.e2: a second datagram for a message in flight, with arbitrary header and body, never crashes;
+// an index beyond the count announced by the message's first datagram is discarded.
+func zzC14eSecond() {
+	seq := vf.U32("seq")
+	max1 := vf.U16("max1")
+	vf.Assume(max1 >= 1 && max1 <= 3)
+	idx1 := vf.U16("idx1")
+	vf.Assume(idx1 <= max1)
+	rb := &ReadBuffers{ReadBuffer: map[uint32]*ReadBuffer{}}
+	_, done1, err1 := rb.Receive(zzHeader(seq, max1, idx1, vf.Bytes("body1", 1)))
+	vf.Assume(err1 == nil && !done1)
+	b := rb.ReadBuffer[seq]
+	vf.Assume(b != nil)
+	count0, size0 := b.SegCount, b.MsgSize
+	// second datagram: same sequence number, everything else arbitrary (its own maxIndex may disagree)
+	max2, idx2 := vf.U16("max2"), vf.U16("idx2")
+	body2 := vf.Bytes("body2", 1)
+	var out []byte
+	var done bool
+	panicked := vf.Panics(func() { out, done, _ = rb.Receive(zzHeader(seq, max2, idx2, body2)) })
+	vf.Assert("second-datagram-never-panics", !panicked)
+	if !panicked && idx2 > max1 {
+		vf.Assert("index-beyond-announced-count-discarded", !done && out == nil)
+		nb := rb.ReadBuffer[seq]
+		vf.Assert("completion-state-unchanged", nb != nil && nb.SegCount == count0 && nb.MsgSize == size0 && len(nb.Msgs) == int(max1)+1)
+	}
+	vf.Reach("end")
+}
